@@ -1,0 +1,31 @@
+//go:build verif
+
+package play
+
+import (
+	"github.com/berquerant/crd/midix"
+	"github.com/berquerant/crd/op"
+)
+
+// VerifArgs lets the verification harness drive the real midiArgs one instance at a time.
+type VerifArgs struct {
+	a *midiArgs
+}
+
+func NewVerifArgs() *VerifArgs { return &VerifArgs{a: newMidiArgs()} }
+
+func (v *VerifArgs) Update(instance op.Instance)     { v.a.update(instance) }
+func (v *VerifArgs) WriteWhenUpdated(w midix.Writer) { v.a.writeWhenUpdated(w) }
+func (v *VerifArgs) Key() op.Key                     { return v.a.getKey() }
+func (v *VerifArgs) Velocity() uint8                 { return v.a.getVelocity() }
+
+// Updated returns the "needs emitting" flags in the order bpm, meter, velocity, key, meta.
+func (v *VerifArgs) Updated() [5]bool {
+	return [5]bool{
+		v.a.bpm.VerifUpdated(),
+		v.a.meter.VerifUpdated(),
+		v.a.velocity.VerifUpdated(),
+		v.a.key.VerifUpdated(),
+		v.a.meta.VerifUpdated(),
+	}
+}
